@@ -90,6 +90,7 @@ func checkC01(rep *Report, rng *Rng, tier string) {
 	if tier == "thorough" {
 		n = 4000
 	}
+	modelOn = true
 	rep.Rule = "seeded random histories (Set/SetItem incl. invalid items, Delete, Get/GetItem, Exist, Min/Max, GetTotals over 1-3 collections and 4 comparators, interleaved with Flush/EvictSomeItems/re-open, file-backed and memory-only); every return value compared with a sorted-map reference and with the Coq model; non-trivial = at least 8 ops, distinct = different (op kind,key) sequence"
 	HistoryLoop(rep, rng, n, func(r *Rng, i int) (RunCfg, []Op, string) {
 		g := GenCfg{FileBacked: r.Chance(2, 3), NColls: 1 + r.Intn(3), NOps: 40 + r.Intn(80), CmpMode: r.Intn(2), Invalid: true,
